@@ -229,6 +229,25 @@ def VS.initDelegation (v : VS) (h d : Nat) : Except Err VS :=
     | none => .error .noDelegation
     | some sh => .ok { v1 with sinfo := setAt v1.sinfo d (some ⟨v1.period - 1, v1.tokensFromSharesTrunc sh, h⟩) }
 
+/-- the read-only precompile method `delegationRewards(val, del)`: on a branch of the store, end the period and
+calculate the delegator's rewards, truncated to whole coins; no delegation: 0 -/
+def VS.pendingRewards (v : VS) (h d : Nat) : Except Err Nat :=
+  match v.del d with
+  | none => .ok 0
+  | some sh =>
+    match v.incPeriod v.tokens with
+    | .error e => .error e
+    | .ok (v1, ending) =>
+      match v1.calcRewards h d sh ending with
+      | .ok raw => .ok (raw / ONE)
+      | .error e => .error e
+
+/-- the read-only precompile method `delegation(val, del)`: whole shares and their token worth -/
+def VS.delegationView (v : VS) (d : Nat) : Nat × Nat :=
+  match v.del d with
+  | none => (0, 0)
+  | some sh => (sh / ONE, v.tokensFromShares sh / ONE)
+
 /-- keeper `WithdrawDelegationRewards` = withdraw + re-initialise (what the `withdraw` precompile method and
 `handlerTransferShares` call through the distribution message server) -/
 def VS.withdrawMsg (v : VS) (h d : Nat) : Except Err (VS × Nat) :=
